@@ -6,6 +6,7 @@ import (
 	"go/token"
 	"os"
 	"path/filepath"
+	"regexp"
 	"sort"
 	"strings"
 )
@@ -469,13 +470,17 @@ func extractC07(c *Ctx) error {
 		return fmt.Errorf("attestTransactionIntegrity: processed check / verifyTx call not recognised")
 	}
 	c.P("Definition processed_check_before_verify : bool := %v.", ip < iv)
+	keyedByHash := true
 	for _, fn := range []string{"setTxAsAlreadyProcessed", "isTxProcessed"} {
 		d := FindFunc(af, "Keeper", fn)
-		if d == nil || !strings.Contains(c.Src(d.Body), "tx.Hash().Bytes()") {
-			return fmt.Errorf("%s no longer keyed by tx.Hash().Bytes()", fn)
+		if d == nil {
+			return fmt.Errorf("%s not found", fn)
+		}
+		if !strings.Contains(c.Src(d.Body), "(tx.Hash().Bytes()") {
+			keyedByHash = false // reported through the definition: gates_as_modelled breaks
 		}
 	}
-	c.P("Definition processed_set_keyed_by_tx_hash : bool := true.")
+	c.P("Definition processed_set_keyed_by_tx_hash : bool := %v.", keyedByHash)
 	// isTxProcessed must be pure key presence: anything else (value, block height, time) is an unknown shape
 	itp := FindFunc(af, "Keeper", "isTxProcessed")
 	// (reported through the generated definition, so that the theorem gates_as_modelled -- the proof step -- breaks,
@@ -487,11 +492,6 @@ func extractC07(c *Ctx) error {
 	}
 	c.P("Definition is_tx_processed_consults : string := %s.", CoqStr(consults))
 	c.Info("is_tx_processed_consults", consults)
-	stp := FindFunc(af, "Keeper", "setTxAsAlreadyProcessed")
-	if len(stp.Body.List) < 2 || c.Src(stp.Body.List[0]) != "kv := k.txAlreadyProcessedStore(ctx)" ||
-		!strings.HasPrefix(c.Src(stp.Body.List[len(stp.Body.List)-1]), "kv.Set(tx.Hash().Bytes(), ") {
-		return fmt.Errorf("setTxAsAlreadyProcessed is no longer `kv := k.txAlreadyProcessedStore(ctx); ...; kv.Set(tx.Hash().Bytes(), ...)`")
-	}
 	// who touches the processed-tx store at all, and who deletes from / iterates over it
 	users, deleters := map[string]bool{}, map[string]bool{}
 	for _, dir := range []string{"x/evm", "x/evm/keeper"} {
@@ -998,5 +998,83 @@ func extractC07Guards(c *Ctx) error {
 		}
 	}
 	c.P("Definition user_deployment_created : string := %s.", CoqStr(crs))
+
+	// fourth round: writer and reader of the processed-tx store must derive the key by the SAME expression from the SAME
+	// decoded object.  Writer: the call in routerAttester's deferred function; reader: the call in attestTransactionIntegrity.
+	// Each is resolved to the key expression handed to kv.Set / kv.Has, with the callee's parameter replaced by the caller's
+	// argument and the caller's locals replaced by what they were defined as.
+	keyOf := func(caller *ast.FuncDecl, calleePrefix string, storeOp string) string {
+		if caller == nil {
+			return "?caller not found"
+		}
+		locals := map[string]ast.Expr{}
+		ast.Inspect(caller.Body, func(n ast.Node) bool {
+			as, ok := n.(*ast.AssignStmt)
+			if ok && as.Tok == token.DEFINE && len(as.Rhs) == 1 && len(as.Lhs) >= 1 {
+				if id, ok := as.Lhs[0].(*ast.Ident); ok && id.Name != "_" && id.Name != "err" {
+					if _, dup := locals[id.Name]; !dup {
+						locals[id.Name] = as.Rhs[0]
+					}
+				}
+			}
+			return true
+		})
+		var calls []*ast.CallExpr
+		ast.Inspect(caller.Body, func(n ast.Node) bool {
+			if ce, ok := n.(*ast.CallExpr); ok {
+				if se, ok := ce.Fun.(*ast.SelectorExpr); ok && strings.HasPrefix(se.Sel.Name, calleePrefix) && c.Src(se.X) == "k" {
+					calls = append(calls, ce)
+				}
+			}
+			return true
+		})
+		if len(calls) != 1 {
+			return fmt.Sprintf("?%d calls of k.%s* in %s", len(calls), calleePrefix, caller.Name.Name)
+		}
+		call := calls[0]
+		arg := "?"
+		if len(call.Args) == 2 {
+			arg = c07resolve(c, locals, call.Args[1], 0)
+		}
+		name := call.Fun.(*ast.SelectorExpr).Sel.Name
+		for depth := 0; depth < 4; depth++ {
+			d := FindFunc(af, "Keeper", name)
+			if d == nil || d.Type.Params == nil || len(d.Type.Params.List) != 2 || len(d.Type.Params.List[1].Names) != 1 {
+				return "?callee " + name + " not recognised"
+			}
+			param := d.Type.Params.List[1].Names[0].Name
+			subst := func(e ast.Expr) string {
+				return regexp.MustCompile(`\b`+param+`\b`).ReplaceAllString(strings.Join(strings.Fields(c.Src(e)), " "), arg)
+			}
+			if ops := Calls(d.Body, storeOp); len(ops) == 1 && len(ops[0].Args) >= 1 && strings.HasPrefix(c.Src(ops[0].Fun), "kv.") {
+				return subst(ops[0].Args[0])
+			}
+			// forwarded to another function of the keeper
+			next := ""
+			ast.Inspect(d.Body, func(n ast.Node) bool {
+				if ce, ok := n.(*ast.CallExpr); ok {
+					if se, ok := ce.Fun.(*ast.SelectorExpr); ok && c.Src(se.X) == "k" && len(ce.Args) == 2 && se.Sel.Name != "txAlreadyProcessedStore" {
+						next, arg = se.Sel.Name, subst(ce.Args[1])
+					}
+				}
+				return true
+			})
+			if next == "" {
+				return "?no " + storeOp + " in " + name
+			}
+			name = next
+		}
+		return "?too deep"
+	}
+	norm := func(s string) string { // the proof object is called `winner` in the router and `proof` in the integrity check
+		return strings.ReplaceAll(regexp.MustCompile(`\b(winner|proof)\b`).ReplaceAllString(s, "<proof>"), "<proof>.(type)", "<proof>")
+	}
+	wk := norm(keyOf(FindFunc(af, "Keeper", "routerAttester"), "setTx", "Set"))
+	rk := norm(keyOf(ti, "isTxProcessed", "Has"))
+	c.P("(* x/evm/keeper/attest.go: the key under which routerAttester records a used transaction, and the key attestTransactionIntegrity looks up *)")
+	c.P("Definition processed_key_written : string := %s.", CoqStr(wk))
+	c.P("Definition processed_key_read : string := %s.", CoqStr(rk))
+	c.Info("processed_key_written", wk)
+	c.Info("processed_key_read", rk)
 	return nil
 }
